@@ -37,7 +37,7 @@ fn random_shape(rng: &mut Rng, force_min_utxo: bool) -> Shape {
     if force_min_utxo && extra > 0 && min_utxo_on.is_empty() {
         min_utxo_on.push(rng.usize(extra));
     }
-    Shape { fees_in_min: rng.bool(), change: rng.chance(3, 4), extra_outputs: extra, min_utxo_on, datum_on_change: rng.chance(1, 4), token_in_change: false, metadata: rng.chance(1, 6), gift: match rng.below(6) { 0 | 1 => Some(0), 2 => Some(1_200_000), _ => None } }
+    Shape { fees_in_min: rng.bool(), change: rng.chance(3, 4), extra_outputs: extra, min_utxo_on, datum_on_change: rng.chance(1, 4), token_in_change: false, metadata: rng.chance(1, 6), gift: match rng.below(6) { 0 | 1 => Some(0), 2 => Some(1_200_000), _ => None }, native_witness: false }
 }
 
 fn resolve_once(compiler: &mut Compiler, lowered: &tir::Tx, q: i128, lovelace: i128, tag: u8) -> Outcome {
@@ -55,7 +55,7 @@ impl Property for C20 {
         "C20"
     }
     fn rule(&self) -> String {
-        "histories of 0..4 earlier uses of one tx3_cardano::Compiler instance - resolutions through resolve_tx (templates 'pay' with 0..4 extra outputs, with and without min_utxo, with stores that make them succeed, fail at once, or fail in a later pass just below the minimum), direct compile() calls and direct evaluations of compiler operators - followed by a target template (min_utxo on random output indices, an optional output that is dropped from the body in a third of the cases, incl. indices beyond the outputs of the previous transaction); the same target is resolved on a fresh, identically configured instance against the same single-UTxO store. Oracle: outcome (payload bytes + hash + fee, or error kind, or panic site) on the used instance = outcome on the fresh one; latest_tx_body before the target is logged as the candidate leak. Non-trivial: history length >= 1 and the target uses min_utxo; distinct = distinct (history, target, pparams).".into()
+        "histories of 0..4 earlier uses of one tx3_cardano::Compiler instance - resolutions through resolve_tx (templates 'pay' with 0..4 extra outputs, with and without min_utxo, with stores that make them succeed, fail at once, or fail in a later pass just below the minimum), direct compile() calls, direct evaluations of compiler operators and, in a fifth of the cases, a resolution of the target's twin (same body, another witness set) - followed by a target template (min_utxo on random output indices, an optional output that is dropped from the body in a third of the cases, incl. indices beyond the outputs of the previous transaction); the same target is resolved on a fresh, identically configured instance against the same single-UTxO store. Oracle: outcome (payload bytes + hash + fee, or error kind, or panic site) on the used instance = outcome on the fresh one; latest_tx_body before the target is logged as the candidate leak. Non-trivial: history length >= 1 and the target uses min_utxo; distinct = distinct (history, target, pparams).".into()
     }
     fn assumptions(&self) -> Vec<String> {
         vec!["single-UTxO input blocks and the same store contents for both runs, so that hash order cannot differ between them".into()]
@@ -67,7 +67,7 @@ impl Property for C20 {
         }
     }
     fn required_features(&self, _tier: Tier) -> Vec<String> {
-        ["history/len-0", "history/len-4", "history/with-failure", "history/direct-compile", "history/direct-compiler-ops", "history/failure-just-below-the-minimum", "target/min_utxo", "target/index-beyond-previous-outputs", "target/min_utxo+dropped-optional-output", "target/tight-balance", "outcome/ok", "state/latest_tx_body-set"].iter().map(|s| s.to_string()).collect()
+        ["history/len-0", "history/len-4", "history/with-failure", "history/direct-compile", "history/direct-compiler-ops", "history/failure-just-below-the-minimum", "history/twin-with-another-witness-set", "target/min_utxo", "target/index-beyond-previous-outputs", "target/min_utxo+dropped-optional-output", "target/tight-balance", "outcome/ok", "state/latest_tx_body-set"].iter().map(|s| s.to_string()).collect()
     }
     fn run_case(&self, ctx: &mut Ctx, phase: &str, idx: u64, rng: &mut Rng) {
         let pp = PP { mainnet: rng.bool(), a: *rng.pick(&[44u64, 1, 100, 0]), b: *rng.pick(&[155_381u64, 0]), coins_per_utxo_byte: if rng.chance(1, 3) { rng.range(1, 40_000) as u64 } else { *rng.pick(&[4310u64, 1, 34482, 289, 290, 291]) }, extra_fees: *rng.pick(&[None, Some(0), Some(123_456)]), cost_models: vec![0, 1, 2], cost_salt: 0 };
@@ -172,6 +172,18 @@ impl Property for C20 {
                 }
                 lovelace = hi + *rng.pick(&[0i128, 0, 1, -1, 100, 1_000, 20_000, 150_000]);
                 ctx.count("target/tight-balance");
+            }
+        }
+        // one time in five the instance has just resolved a twin of the target: the same template, arguments and
+        // UTxO, plus a native script in the witness set - the two bodies are byte-identical, the payloads are not
+        if rng.chance(1, 5) {
+            let mut twin = target_shape.clone();
+            twin.native_witness = true;
+            let tsrc = print_program(&program(&twin), Layout::plain());
+            if let Ok(tl) = front(&tsrc, "pay") {
+                let o = resolve_once(&mut used, &tl, q, lovelace, 0x77);
+                ctx.count("history/twin-with-another-witness-set");
+                history.push(json!({"step": "resolve_tx of the target's twin (same body, native script attached)", "outcome": o.kind()}));
             }
         }
         ctx.eval();
